@@ -2,6 +2,25 @@
 over the shards; budgets are case counts, never time."""
 
 PROPS = {
+    "C06": {
+        "pkg": "c06", "needs_gw": True, "level": "exploration",
+        "technique": "property-based testing (rapid): upload mode x integrity field x corruption x target x prior state; oracle = refusal and unchanged prior state for corrupted uploads, exact stored bytes for the control",
+        "level_text": ("Generated-input search: PutObject / UploadPart on new and existing keys, in 6 encodings (signed payload, UNSIGNED-PAYLOAD, presigned, "
+                       "signed / signed+trailer / unsigned+trailer aws-chunked, 5 checksum algorithms, optional Content-MD5 and x-amz-checksum-* "
+                       "headers, generated chunk sizes and wire fragmentation), with exactly one of 14 corruptions (wrong Content-MD5, wrong "
+                       "x-amz-content-sha256 signed consistently, wrong checksum header / trailer, payload bit flip after signing, chunk / trailer "
+                       "signature damaged, decoded length larger / smaller, chunk size larger, body cut short, stream truncated at a chunk boundary, "
+                       "bytes after the final chunk) or none. Corrupted => not 2xx and GET / ListParts show exactly the prior state; control => "
+                       "2xx and the stored object is exactly the sent bytes with ETag = MD5 and the new metadata. In-process and real process over TCP."),
+        "level_note": "bytes after the terminating chunk are outside the declared payload: accepting them is tolerated as long as the stored object is exactly the payload. Exploration only.",
+        "rule": ("case = (config, target, prior, mode, algo, md5?, checksum header?, size, chunks, fragments, corruption, arg, engine). Non-trivial: a "
+                 "corruption is present and effective; distinct by the tuple without arg."),
+        "assumptions": ["time.Now() only for signing dates"],
+        "jobs": [
+            {"run": "TestC06A", "quick": 40000, "thorough": 1500000, "shards_quick": 12, "shards_thorough": 16},
+            {"run": "TestC06P", "quick": 8000, "thorough": 200000, "shards_quick": 4, "shards_thorough": 16},
+        ],
+    },
     "C03": {
         "pkg": "c03", "needs_gw": False, "level": "exploration",
         "technique": "property-based testing (rapid): generated bucket policies / ACLs x caller x catalogue operation x target against an own evaluator of the policy language and the ACL table; oracle = refusal (AccessDenied), snapshot equality, no disclosure, per-key survival for batch deletes",
